@@ -180,6 +180,89 @@ fn bias_sweep(b: usize, step: f64) -> (u64, f64, f64, Vec<Viol>, Vec<serde_json:
     (evals, worst_out, worst_in, viols, rows)
 }
 
+/// Part 3 — exact distribution in the linear-counting regime (ideal-hash measure).
+/// While count() is independent of the ranks (linear counting: it depends only on the number of
+/// occupied registers j), the distribution of count() over all hash streams of n distinct hashes
+/// is the occupancy law of n balls in m bins, propagated exactly layer by layer
+/// (p[j] -> p[j] * j/m + p[j-1] * (m-j+1)/m: the next hash addresses one of the m registers
+/// uniformly). count() itself is evaluated on the real sketch for every j. Rank independence and
+/// permutation invariance are verified on the real code for every j that carries mass.
+fn lc_regime_exact(b: usize) -> (u64, Vec<Viol>, serde_json::Value) {
+    let m = 1usize << b;
+    let mf = m as f64;
+    let maxrank = (64 - b + 1) as u8;
+    let sigma = build(b, vec![0u8; m]).relative_error();
+    // count as a function of j, with rank-independence flag
+    let mut cnt: Vec<Option<f64>> = vec![None; m + 1];
+    let eval = |j: usize, cnt: &mut Vec<Option<f64>>| -> Option<f64> {
+        if let Some(c) = cnt[j] {
+            return if c.is_nan() { None } else { Some(c) };
+        }
+        let mk = |rank: u8, front: bool| {
+            let mut r = vec![0u8; m];
+            if front { for x in r.iter_mut().take(j) { *x = rank; } } else { for x in r.iter_mut().skip(m - j) { *x = rank; } }
+            build(b, r).count() as f64
+        };
+        let c1 = mk(1, true);
+        let indep = c1 == mk(3, true) && c1 == mk(maxrank, true) && c1 == mk(2, false);
+        cnt[j] = Some(if indep { c1 } else { f64::NAN });
+        if indep { Some(c1) } else { None }
+    };
+    let mut p = vec![0.0f64; m + 1];
+    p[0] = 1.0;
+    let mut viols: Vec<Viol> = vec![];
+    let mut layers = 0u64;
+    let mut worst = (0.0f64, 0.0f64, 0.0f64, 0usize); // rms/sigma, |mean|/sigma, tail, n
+    let n_max = 3 * m;
+    let mut last_n = 0;
+    'outer: for n in 1..=n_max {
+        // one more distinct hash
+        let mut q = vec![0.0f64; m + 1];
+        for j in 0..=m.min(n - 1) {
+            if p[j] == 0.0 { continue; }
+            q[j] += p[j] * (j as f64 / mf);
+            if j < m { q[j + 1] += p[j] * ((m - j) as f64 / mf); }
+        }
+        p = q;
+        // moments of the relative error, exact over the occupancy law
+        let (mut mean, mut ms, mut tail, mut mass) = (0.0f64, 0.0f64, 0.0f64, 0.0f64);
+        for j in 0..=m.min(n) {
+            if p[j] < 1e-13 { continue; }
+            match eval(j, &mut cnt) {
+                None => break 'outer, // beyond the rank-independent regime: stop (not decided here)
+                Some(c) => {
+                    // integer effects of a couple of units are allowed throughout
+                    let abs = ((c - n as f64).abs() - 1.0).max(0.0) * (c - n as f64).signum();
+                    let rel = abs / n as f64;
+                    mean += p[j] * rel;
+                    ms += p[j] * rel * rel;
+                    if rel.abs() > 3.0 * sigma { tail += p[j]; }
+                    mass += p[j];
+                }
+            }
+        }
+        if mass < 1.0 - 1e-9 { break; }
+        layers += 1;
+        last_n = n;
+        let rms = ms.sqrt();
+        if rms / sigma > worst.0 { worst = (rms / sigma, worst.1, worst.2, n); }
+        worst.1 = worst.1.max(mean.abs() / sigma);
+        worst.2 = worst.2.max(tail);
+        let inside = (n as f64) >= 0.5 * mf && (n as f64) <= 2.0 * mf;
+        let lim = if inside { 2.0 } else { 1.0 };
+        if rms > lim * 1.1 * sigma && !viols.iter().any(|v| v.signature.contains("exact RMS")) {
+            viols.push(Viol { property: "C03".into(), signature: format!("hll exact RMS in the linear-counting regime b={}", b), message: format!("b={} n={}: exact RMS of the relative error over all hash streams = {:.4} = {:.2} x relative_error() (limit {} x, +10 %)", b, n, rms, rms / sigma, lim), replay: json!({"b": b, "n": n, "rms": rms, "relative_error": sigma, "method": "occupancy law x real count() per number of occupied registers"}) });
+        }
+        if mean.abs() > 0.35 * sigma && !viols.iter().any(|v| v.signature.contains("exact mean")) {
+            viols.push(Viol { property: "C03".into(), signature: format!("hll exact mean in the linear-counting regime b={}", b), message: format!("b={} n={}: exact mean relative error {:+.4} = {:+.2} x relative_error()", b, n, mean, mean / sigma), replay: json!({"b": b, "n": n, "mean": mean, "relative_error": sigma}) });
+        }
+        if tail > 0.05 && !viols.iter().any(|v| v.signature.contains("exact tail")) {
+            viols.push(Viol { property: "C03".into(), signature: format!("hll exact tail in the linear-counting regime b={}", b), message: format!("b={} n={}: P(|relative error| > 3 relative_error()) = {:.3} > 5 %", b, n, tail), replay: json!({"b": b, "n": n, "tail": tail, "relative_error": sigma}) });
+        }
+    }
+    (layers, viols, json!({"b": b, "n_decided_exactly_up_to": last_n, "worst_rms_over_sigma": (worst.0 * 1000.0).round() / 1000.0, "at_n": worst.3, "worst_abs_mean_over_sigma": (worst.1 * 1000.0).round() / 1000.0, "worst_3sigma_tail": (worst.2 * 1e5).round() / 1e5}))
+}
+
 fn main() {
     let args = parse_args();
     let mut run = Runner::new("C03", &args.tier, "exploration");
@@ -202,12 +285,25 @@ fn main() {
             run.violation(v);
         }
     }
-    run.ev.set("evaluations", json!(n_abs + n_can));
+    // part 3: exact distribution in the linear-counting regime for b <= 11 (quick: <= 9)
+    let bs3: Vec<usize> = (4..=if thorough { 11 } else { 9 }).collect();
+    let res3 = par_map(&bs3, n_threads(), |&b| lc_regime_exact(b));
+    let mut lc_rows = vec![];
+    let mut n_lc = 0u64;
+    for (layers, vs, row) in res3 {
+        n_lc += layers;
+        lc_rows.push(row);
+        for v in vs {
+            run.violation(v);
+        }
+    }
+    run.ev.set("linear_counting_regime_exact", json!(lc_rows));
+    run.ev.set("evaluations", json!(n_abs + n_can + n_lc));
     run.ev.set("distinct_nontrivial", json!(n_abs + n_can - bs.len() as u64));
     run.ev.set("per_precision", json!(per_b));
     run.ev.set("small_cardinality_cases", json!(n_small));
     run.ev.set("exhaustive", json!(true));
-    run.ev.set("not_decided", json!("RMS <= relative_error, mean ~ 0 and 3-sigma tail over independent hash seeds, real hashers on structured keys: probability over an un-enumerable hash space; no sampling is used to stand in for it"));
+    run.ev.set("not_decided", json!("RMS / mean / 3-sigma tail BEYOND the linear-counting regime and for b >= 12, and real hashers on structured keys: probability over an un-enumerable hash space; no sampling is used to stand in for it. Inside the linear-counting regime (count() independent of the ranks, verified on the real code) the three distributional clauses ARE decided exactly under the ideal-hash measure, see linear_counting_regime_exact"));
     run.ev.set("samples", json!([{"b": 9, "registers_histogram": [[1, 3], [28, 2]], "expectation": "5 occupied registers => count within 1 of 5"}, {"b": 12, "canonical_n": 10240, "registers": "quantiles of the register law", "expectation": "|count - n| - 2 <= 2 sigma n (inside the bump)"}]));
     run.ev.set("rule", json!("every register histogram with up to 1-3 distinct non-zero values from {1,2,3,mid,64-b,64-b+1,255} and counts from {1..8,m/2,m-8,m-1,m}; every n on a x1.02 (quick) / x1.004 (thorough) grid in [0.02m, 50m] for every b; non-trivial = every case except the empty sketch per b"));
     run.ev.assume("canonical configuration = deterministic quantile vector of the exact register law; it probes bias, not variance");
